@@ -42,6 +42,24 @@ def hsvMatchesExact (orig mid : List Int) : Bool :=
   let close (x : Rat) (bits : Int) : Bool := Float.abs (ratToFloat x - (f32 bits).toFloat) ≤ 1.0e-5
   close h (mid.getD 0 0) && close s (mid.getD 1 0) && close v (mid.getD 2 0)
 
+/-- the same tie for the exact-rational twin `rgbToHslQ` (largest deviation over all 2^24 pixels: hue 3.4e-7, saturation 5.1e-6, lightness 6e-8) -/
+def hslMatchesExact (orig mid : List Int) : Bool :=
+  let q (i : Nat) : Rat := (orig.getD i 0 : Int) / 255
+  let (h, s, l) := rgbToHslQ (q 0) (q 1) (q 2)
+  let close (x : Rat) (bits : Int) : Bool := Float.abs (ratToFloat x - (f32 bits).toFloat) ≤ 1.0e-5
+  close h (mid.getD 0 0) && close s (mid.getD 1 0) && close l (mid.getD 2 0)
+
+/-- tie of the integer relations the theorems of Props/C18Ycbcr.lean quantify over (`ycbcr601Rel`, `ycbcr709Rel`, `ycbcr709BackRel`) to the
+    implementation: the y, cb, cr the real code produced (and, for ycbcr_709, the r, g, b it returned) are truncations of the exact
+    values of its decimal formulas -/
+def ycbcrMatchesExact (sp : String) (orig mid back : List Int) : Bool :=
+  let o (i : Nat) : Int := orig.getD i 0
+  let m (i : Nat) : Int := mid.getD i 0
+  let k (i : Nat) : Int := back.getD i 0
+  if sp == "ycbcr601" then ycbcr601Rel (o 0) (o 1) (o 2) (m 0) (m 1) (m 2)
+  else if sp == "ycbcr709" then ycbcr709Rel (o 0) (o 1) (o 2) (m 0) (m 1) (m 2) && ycbcr709BackRel (m 0) (m 1) (m 2) (k 0) (k 1) (k 2)
+  else true
+
 /-- Spec clauses for one pixel: intermediate range (hsv/hsl) and round trip within the tolerance -/
 def pxSpec (sp : String) (orig mid back : List Int) : Option String :=
   let rangeBad : Option String :=
@@ -62,6 +80,8 @@ def pxSpec (sp : String) (orig mid back : List Int) : Option String :=
     let d := ((back.take 3).zip orig).foldl (fun m (x, o) => max m (x - o).natAbs) 0
     if back.length < 3 then some "shape"
     else if sp == "hsv" && !hsvMatchesExact orig mid then some "hsv-differs-from-exact-arithmetic"
+    else if sp == "hsl" && !hslMatchesExact orig mid then some "hsl-differs-from-exact-arithmetic"
+    else if !ycbcrMatchesExact sp orig mid back then some "ycbcr-differs-from-exact-arithmetic"
     else if d > tol sp then some (if tol sp = 0 then "round-trip-exact" else "round-trip-tolerance") else none
 
 /-- a whole plane of a modelled space: max diff, number of pixels failing a range clause, hash; plus first Spec failure -/
